@@ -73,18 +73,21 @@ def r9_2(ctx, R, ms, counter_field):
                      "the queue) < (capacity() of the same queue)")
     for m in ms:
         b = m.b
+        ordered = (m.qty or "").startswith("futures_ordered_bounded::")
         ctx.ob("R9.2", b, "has-fill-guard", len(m.guards) >= 1, d_loc(b), "guard switch blocks: %s" % sorted(m.guards))
-        for sb, tg in m.guards.items():
-            for tgt, (op, val, l, r) in tg.items():
-                ll = deep_leaves(ctx, b, l, 3)
-                rl = deep_leaves(ctx, b, r, 3)
-                ok_l = ("field", counter_field) in ll
-                ok_r = any(x[0] == "call" and (x[1] or "").endswith("::capacity") for x in rl)
-                same_q = _same_queue(l, r, m.qfield)
-                direct = l[0] == "call" and (l[1] or "").endswith("::len") and r[0] == "call" and (r[1] or "").endswith("::capacity")
-                ctx.ob("R9.2", b, "guard-operands@bb-ord%d" % sorted(m.guards).index(sb), ok_l and ok_r and same_q and op == "Lt" and direct, b.loc(sb),
-                       "op %s; lhs is a len() observer depending on counter %s: %s/%s; rhs is capacity(): %s; same queue: %s" % (op, counter_field, direct, ok_l, ok_r, same_q))
-                break
+        for sb, safe, sat, det in m.guard_semantics(ordered, safety_counts_parked=False):
+            if safe is None:
+                # no closed form: fall back to the exact shape  len() < capacity()  on the same queue
+                gi = m.guard_info[sb]
+                sh = gi["shape"]
+                direct = bool(sh) and sh[0] == "Lt" and sh[1][0] == "call" and (sh[1][1] or "").endswith("::len") and \
+                    sh[2][0] == "call" and (sh[2][1] or "").endswith("::capacity") and gi["pull_val"] is True
+                ctx.ob("R9.2", b, "guard-operands@bb-ord%d" % sorted(m.guards).index(sb), direct, b.loc(sb), "shape rule (%s)" % det)
+                continue
+            ctx.ob("R9.2", b, "guard-admits-a-pull-only-below-the-limit@bb-ord%d" % sorted(m.guards).index(sb), safe, b.loc(sb),
+                   "finite-grid entailment: pull ==> running < capacity; " + det)
+            ctx.ob("R9.2", b, "guard-refuses-only-when-saturated@bb-ord%d" % sorted(m.guards).index(sb), sat, b.loc(sb),
+                   "finite-grid entailment: no pull ==> running%s >= capacity; %s" % (" + parked" if ordered else "", det))
         bad = []
         npush = 0
         for path, ev in m.all_event_paths(3):
